@@ -57,7 +57,9 @@ fn section_index(ctx: &mut Ctx) {
         ensure!(ctx, f.as_char() == (b'a' + i as u8) as char, s, "File {} as_char {}", i, f.as_char());
         ensure!(ctx, f.to_string() == f.as_char().to_string(), s, "File Display");
         ensure!(ctx, File::from_char(f.as_char()) == Some(f), s, "File char round trip {}", i);
+        ensure!(ctx, unsafe { File::from_index_unchecked(i) } == f, s, "File::from_index_unchecked({})", i);
         let r = Rank::from_index(i);
+        ensure!(ctx, unsafe { Rank::from_index_unchecked(i) } == r, s, "Rank::from_index_unchecked({})", i);
         ensure!(ctx, r.index() == i, s, "Rank::from_index({}).index() = {}", i, r.index());
         // rank index 0 is the 8th rank
         ensure!(ctx, r.as_char() == (b'8' - i as u8) as char, s, "Rank {} as_char {}", i, r.as_char());
@@ -73,6 +75,13 @@ fn section_index(ctx: &mut Ctx) {
         ctx.add(IDX, 1);
         let c = Coord::from_index(i);
         ensure!(ctx, c.index() == i, s, "Coord::from_index({}).index()", i);
+        ensure!(ctx, unsafe { Coord::from_index_unchecked(i) } == c, s, "Coord::from_index_unchecked({})", i);
+        // add_unchecked on every delta whose result stays on the board (its whole safe domain)
+        for j in 0..64usize {
+            let d = j as isize - i as isize;
+            let got = unsafe { c.add_unchecked(d) };
+            ensure!(ctx, got.index() == j && got == c.add(d), s, "Coord {}.add_unchecked({}) = {}", i, d, got.index());
+        }
         ensure!(ctx, c.file().index() == fidx(i) && c.rank().index() == ridx(i), s, "Coord {} file/rank", i);
         ensure!(ctx, Coord::from_parts(c.file(), c.rank()) == c, s, "Coord::from_parts round trip {}", i);
         let txt = format!("{}{}", (b'a' + fidx(i) as u8) as char, (b'8' - ridx(i) as u8) as char);
@@ -102,6 +111,8 @@ fn section_index(ctx: &mut Ctx) {
         let ch = spell.as_bytes()[i] as char;
         ensure!(ctx, c.as_char() == ch && c.to_string() == ch.to_string(), s, "Cell {} as_char `{}` expected `{}`", i, c.as_char(), ch);
         ensure!(ctx, Cell::from_char(ch) == Some(c), s, "Cell from_char `{}`", ch);
+        let uch = ".\u{2659}\u{2654}\u{2658}\u{2657}\u{2656}\u{2655}\u{265f}\u{265a}\u{265e}\u{265d}\u{265c}\u{265b}".chars().nth(i).unwrap();
+        ensure!(ctx, c.as_utf8_char() == uch, s, "Cell {} as_utf8_char `{}` expected `{}`", i, c.as_utf8_char(), uch);
         ensure!(ctx, ch.to_string().parse::<Cell>() == Ok(c), s, "Cell parse `{}`", ch);
         if i == 0 {
             ensure!(ctx, c == Cell::EMPTY && c.is_free() && !c.is_occupied() && c.color().is_none() && c.piece().is_none(), s, "empty cell");
